@@ -366,6 +366,15 @@ fn oracle_program(pc: &ProgCase, obs: &mut Obs) -> Result<(), Violation> {
     let a = content_addr(&p);
     ensure!(a.0 == sha256(&pc.0), "addr:program-address", "content_addr(program) is not the SHA-256 of its bytes");
     ensure!(p.content_address() == a, "addr:trait-disagrees", "trait disagrees for a program");
+    // the generic hashing helpers
+    ensure!(essential_hash::hash_bytes(&pc.0) == sha256(&pc.0), "addr:hash-bytes", "hash_bytes is not SHA-256");
+    let cut = pc.0.len() / 3;
+    let chunks: Vec<&[u8]> = vec![&pc.0[..cut], &pc.0[cut..cut], &pc.0[cut..]];
+    ensure!(essential_hash::hash_bytes_iter(chunks) == sha256(&pc.0), "addr:hash-bytes-iter", "hash_bytes_iter over chunks differs from hashing the concatenation");
+    if pc.0.len() % 8 == 0 {
+        let words = crate::model::vm::bytes_to_words(&pc.0);
+        ensure!(essential_hash::hash_words(&words) == sha256(&pc.0), "addr:hash-words", "hash_words is not SHA-256 of the big-endian bytes");
+    }
     if let (Some((pos, x)), false) = (pc.1, pc.0.is_empty()) {
         let mut b = pc.0.clone();
         let i = gen::pick_ix(pos, b.len());
@@ -491,7 +500,12 @@ pub fn property() -> Property {
                 "addr.program",
                 40_000,
                 320_000,
-                |_| (proptest::collection::vec(any::<u8>(), 0..200), proptest::option::of((any::<u32>(), any::<u8>()))).prop_map(|(b, p)| ProgCase(b, p)),
+                |_| (proptest::collection::vec(any::<u8>(), 0..200), proptest::option::of((any::<u32>(), any::<u8>())), any::<bool>()).prop_map(|(mut b, p, round)| {
+                    if round {
+                        b.truncate(b.len() / 8 * 8);
+                    }
+                    ProgCase(b, p)
+                }),
                 oracle_program,
             ),
             prop_sub(
